@@ -267,6 +267,13 @@ func dmxScenarios() []dmxScenario {
 			out = append(out, base)
 			out = append(out, dmxInsertEach(base, DAct{Op: "cancelkey", K: 1}, "cancel-each-step")...)
 			out = append(out, dmxInsertEach(base, DAct{Op: "stop"}, "stop-each-step")...)
+			// the context of each Write call ends at every position - also AFTER the call has returned nil, while the
+			// shared transport is still blocked: what was accepted must reach the shared transport all the same
+			for w := 0; w <= nw; w++ {
+				for _, ce := range []string{"", "deadline"} {
+					out = append(out, dmxInsertEach(base, DAct{Op: "cancelcall", I: w, M: ce}, "cancelcall-each-step")...)
+				}
+			}
 		}
 	}
 	// 5. ticks of the virtual clock inside short words
